@@ -274,6 +274,17 @@ def history_stage(chk, viol, C, F, rng, tie_cases):
                 chk.case((cfg.key, "history", it, step, what), True)
 
 
+def frame_kind(fo, oframes):
+    """rarely used frame kinds get failure keys of their own: a J1939-flagged frame; a frame whose identifier number also
+    exists in the other frame format"""
+    k = fmt_rt.fkey(fo)
+    if (k[0], not k[1]) in oframes:
+        return "id-twin"
+    if fo.is_j1939:
+        return "j1939"
+    return ""
+
+
 def compare_layout(chk, viol, cfg, rng, orig, back, mk_info):
     """orig/back: dict bus -> CanMatrix.  Returns number of frames compared."""
     nfr = 0
@@ -294,7 +305,7 @@ def compare_layout(chk, viol, cfg, rng, orig, back, mk_info):
         for k in sorted(oframes):
             if k not in bframes:
                 sub = "-bus-partition" if any(k in [fmt_rt.fkey(f) for f in m.frames] for n2, m in back.items() if n2 != bname) else ""
-                viol(cfg.kbase + "-frame-lost" + sub, "frame (id, extended) not found after the round trip" + (" on its own bus" if sub else ""),
+                viol(cfg.kbase + "-frame-lost" + sub + ("@" + frame_kind(oframes[k], oframes) if frame_kind(oframes[k], oframes) else ""), "frame (id, extended) not found after the round trip" + (" on its own bus" if sub else ""),
                      mk_info(oframes[k]), list(k), sorted(bframes))
         for k in sorted(bframes):
             if k not in oframes:
@@ -303,6 +314,8 @@ def compare_layout(chk, viol, cfg, rng, orig, back, mk_info):
             if k not in bframes:
                 continue
             fo, fb = oframes[k], bframes[k]
+            kind = frame_kind(fo, oframes)
+            fv = viol if not kind else (lambda key, *rest, kind=kind: viol(key + "@" + kind, *rest))
             nfr += 1
             info = lambda s=None: mk_info(fo, s)
             exp = {fmt_rt.expected_signal_name(cfg, fo, s): s for s in fo.signals}
@@ -312,13 +325,13 @@ def compare_layout(chk, viol, cfg, rng, orig, back, mk_info):
                 got.setdefault(s.name, []).append(s)
             for n in exp:
                 if n not in got:
-                    viol(cfg.kbase + "-signal-lost", "signal not found by name after the round trip", info(n), n, got_names)
+                    fv(cfg.kbase + "-signal-lost", "signal not found by name after the round trip", info(n), n, got_names)
             for n in got:
                 if n not in exp:
-                    viol(cfg.kbase + "-signal-extra", "signal appears that was not written", info(n), sorted(exp), n)
+                    fv(cfg.kbase + "-signal-extra", "signal appears that was not written", info(n), sorted(exp), n)
                 elif len(got[n]) > 1:
                     same = all(fmt_rt.sig_positions(x) == fmt_rt.sig_positions(got[n][0]) for x in got[n])
-                    viol(cfg.kbase + "-signal-duplicated" + ("" if same else "-different-bits"),
+                    fv(cfg.kbase + "-signal-duplicated" + ("" if same else "-different-bits"),
                          "signal occurs %d times in the re-read frame" % len(got[n]), info(n), 1, len(got[n]))
             nontriv = k[1] or fo.size > 8
             for n, so in exp.items():
@@ -331,12 +344,12 @@ def compare_layout(chk, viol, cfg, rng, orig, back, mk_info):
                     nontriv = True
                     chk.count(cfg.fmt + ":motorola-crossing-bytes")
                 if int(so.size) != int(sb.size):
-                    viol(cfg.kbase + "-width", "signal width changed", info(n), int(so.size), int(sb.size))
+                    fv(cfg.kbase + "-width", "signal width changed", info(n), int(so.size), int(sb.size))
                 elif bool(so.is_little_endian) != bool(sb.is_little_endian):
-                    viol(cfg.key + "-byteorder" + ("-mux" if so.is_multiplexer else ""), "byte order changed", info(n),
+                    fv(cfg.key + "-byteorder" + ("-mux" if so.is_multiplexer else ""), "byte order changed", info(n),
                          "intel" if so.is_little_endian else "motorola", "intel" if sb.is_little_endian else "motorola")
                 elif po != pb:
-                    viol(cfg.key + "-bits" + ("-mux" if so.is_multiplexer else ""), "signal occupies other payload bits", info(n), po, pb)
+                    fv(cfg.key + "-bits" + ("-mux" if so.is_multiplexer else ""), "signal occupies other payload bits", info(n), po, pb)
             # raw fields of payloads
             fdec = fb
             if int(fb.size) != int(fo.size):
@@ -350,14 +363,14 @@ def compare_layout(chk, viol, cfg, rng, orig, back, mk_info):
                     chk.count("decode-original-raises")
                     continue
                 if isinstance(dbk, Exception):
-                    viol(cfg.kbase + "-decode-raises", "Frame.decode of the re-read frame raises", info(None) | {"payload": data.hex()}, "decoded", repr(dbk))
+                    fv(cfg.kbase + "-decode-raises", "Frame.decode of the re-read frame raises", info(None) | {"payload": data.hex()}, "decoded", repr(dbk))
                     break
                 bad = False
                 for so_name, ds in do.items():
                     n = fmt_rt.expected_signal_name(cfg, fo, ds.signal)
                     if n not in dbk:
                         if n in got:   # present but not decoded: the re-read frame selects other signals
-                            viol(cfg.kbase + "-decode-selection", "signal decoded from the original frame is not decoded from the re-read frame",
+                            fv(cfg.kbase + "-decode-selection", "signal decoded from the original frame is not decoded from the re-read frame",
                                  info(n) | {"payload": data.hex()}, sorted(do), sorted(dbk))
                             bad = True
                         continue
@@ -366,13 +379,17 @@ def compare_layout(chk, viol, cfg, rng, orig, back, mk_info):
                         chk.count("nan-skipped")
                         continue
                     if int(ds.signal.size) == int(dbk[n].signal.size) and a != b:
-                        viol(cfg.key + "-raw-field", "payload yields another raw bit field", info(n) | {"payload": data.hex()}, a, b)
+                        fv(cfg.key + "-raw-field", "payload yields another raw bit field", info(n) | {"payload": data.hex()}, a, b)
                         bad = True
                 if bad:
                     break
             canon = json.dumps(fmt_rt.frame_brief(fo), sort_keys=True, default=str)
             chk.case((cfg.key, canon), nontriv)
             chk.count("len:%s" % ("1-8" if fo.size <= 8 else "9-64"))
+            if fo.is_j1939:
+                chk.count("frame-kind:j1939")
+            if (k[0], not k[1]) in oframes:
+                chk.count("frame-kind:id-twin (same number, other format)")
             chk.count("id:%s" % ("ext>7FF" if k[1] and k[0] > 0x7FF else ("ext" if k[1] else "std")))
     return nfr
 
